@@ -917,6 +917,12 @@ class PDFFont:
         self.leading = num_value(descriptor.get("Leading", 0))
         self.bbox = self._parse_bbox(descriptor)
         self.hscale = self.vscale = 0.001
+        for attr in ("ascent", "descent", "italic_angle", "default_width", "leading"):
+            # they are multiplied with floats later on: an integer of hundreds
+            # of digits cannot be a metric
+            if safe_float(getattr(self, attr)) is None:
+                log.warning("Invalid font metric %s, using 0", attr)
+                setattr(self, attr, 0)
 
         # PDF RM 9.8.1 specifies /Descent should always be a negative number.
         # PScript5.dll seems to produce Descent with a positive number, but
